@@ -5,6 +5,12 @@ along the MRO, Limit parameters, flags, export settings, cfg overrides) on a rea
 histories with scripted recording drivers.  The datatype layer is an ORACLE for the Lean model: the real datatype
 methods are run here and their results are sent as tables; every decision is taken by the model / the monitors.
 The node generator and the node -> JSON canonicaliser are shared with C06 (props/c06.py imports them).
+
+Streams of one run (all judged by the Lean side): (1) sequential histories (`run_case`); (2) `run_concurrent`: a change racing
+a thread that moves the dynamic limit (lock discipline of the wrappers); (3) `run_merging`: 2-3 threads changing / polling /
+writing ONE struct parameter (the value given to the driver is the payload merged into the value cached at that moment);
+(4) `run_shared`: generated histories served to 2-3 connections at once (requests handled one at a time, sequential model
+in served order); (5) `run_wire`: generated histories as request lines through the real TCPRequestHandler.
 """
 import json
 import os
@@ -24,10 +30,16 @@ META = {
                   'history, limits moved by earlier requests included, satisfies the monitored specification; WF is kept). '
                   'calls_within_current_limits (lock discipline of the wrappers: in every interleaving of any number of threads a driver call is '
                   'made with a value inside the limit in force at that moment). '
+                  'calls_merge_current (change-section system: in every interleaving every driver call caused by a request is given the '
+                  'payload merged into the value cached at the moment of the call), requests_one_at_a_time, '
+                  'change_exactly_validated (for datatypes of the C01 model the driver gets exactly acceptWire dt j (some current); '
+                  'the idempotence assumption is discharged by C01 revalidate_unchanged). '
                   'The model is tied to dispatcher.py / modulebase.py / params.py by a correspondence run on the real '
-                  'dispatcher with recording drivers, and the Lean monitors judge every implementation exchange.',
+                  'dispatcher with recording drivers (sequentially, with 2-3 connections at once under a deterministic scheduler, and as '
+                  'request lines through the real TCPRequestHandler / handler.py), and the Lean monitors judge every implementation exchange.',
     'level_note': 'Trusted: Lean kernel + axioms; for the ten SECoP datatype kinds the value accepted from the wire is recomputed '
-                  'by the C01 datatype model (acceptWire) in the Lean judge and the implementation must agree; export_value, '
+                  'by the C01 datatype model (acceptWire) in the Lean judge - change payloads against the cached value, command arguments, '
+                  'and under concurrency against the value cached at the moment of the driver call - and the implementation must agree; export_value, '
                   'comparisons, LimitsType/StatusType and driver-returned values remain an oracle (C01-C03); drivers, command functions and check_ hooks are '
                   'oracles by definition; time stamps / omit_unchanged_within are not modelled (C05): the node runs with '
                   'omit_unchanged_within = 0.',
@@ -37,16 +49,21 @@ META = {
         'a stored read error is identified by (type, args) as SECoPError.__eq__ does',
     ],
     'modelled_not_verified': [
-        'threading: the sequential model serves one request at a time; the accessLock discipline is a separate small-step '
-        'system (AccessLock.lean) tied to the real wrappers by replaying their events under the deterministic scheduler',
+        'threading: the sequential model serves one request at a time; that the dispatcher does so is checked on every run '
+        '(handler sections of histories served to 2-3 connections under the deterministic scheduler must not overlap and must '
+        'behave as the sequential model in served order), not proved as a refinement; the accessLock disciplines (limit check + '
+        'call: AccessLock.lean; merge into the current value + call: ChangeSection.lean) are small-step systems tied to the '
+        'real code by replaying its events',
         'time stamps and the omit_unchanged_within window (C05)',
         'Python MRO resolution producing the check_<param> chain (taken from the real class as data)',
     ],
     'assumptions': [
         'wire names of a module are pairwise distinct and predefined names are used for their own kind (Node.WF)',
         'command functions and check hooks do not assign parameters themselves',
-        'validate is idempotent on accepted values where the statement says "exactly the validated value" (stated '
-        'separately as w = v; the theorems carry both values)',
+        'module code changes a parameter from another thread only through read_/write_ wrappers (under accessLock), not by '
+        'a bare assignment',
+        'validate is idempotent on accepted values where the statement says "exactly the validated value" (the general '
+        'theorems carry both values v, w; proved equal for datatypes of the C01 model: change_exactly_validated)',
     ],
 }
 
@@ -851,12 +868,13 @@ class Oracle:
                 self.trees[key] = None
         return self.trees[key]
 
-    def accept_row(self, m, attr, dt, payload, cur, r):
+    def accept_row(self, m, attr, dt, payload, cur, r, kind='param'):
         """hand the row to the Lean side in the C01 encoding, so that `acceptWire` is recomputed there"""
         from vlib import dtcodec
         if self.tree_of(m, attr, dt) is None:
             self.count_outside += 1
             return
+        self.count_kind[kind] = self.count_kind.get(kind, 0) + 1
         if not (dtcodec.is_json_value(payload) and dtcodec.encodable(payload) and dtcodec.encodable(cur)):
             return
         try:
@@ -869,6 +887,7 @@ class Oracle:
         self.trees = {}
         self.ck = []
         self.count_outside = 0
+        self.count_kind = {}
         self.t = {k: {} for k in ('accept', 'reval', 'convert', 'export', 'cmdaccept', 'cmdconvert', 'cmdexport',
                                   'le', 'lt', 'split', 'chk')}
 
@@ -968,6 +987,8 @@ def command_oracle(orc, modobj, attr, cobj, payload, raws):
         a = cobj.argument
         r = oracle_call(lambda: a.validate(a.import_value(payload)))
         orc.put('cmdaccept', [m, attr, canonj(payload)], orc.res(r))
+        # the argument the command function gets is recomputed by the datatype model as well (no previous value)
+        orc.accept_row(m, attr, a, payload, None, r, kind='cmd')
     if cobj.result:
         for raw in list(raws) + [None]:
             r = oracle_call(cobj.result, raw)
@@ -1026,29 +1047,38 @@ def msg_obs(msg):
     return ['other', action, spec or '', '']
 
 
-def run_case(nodespec, steps):
-    """-> dict(node=<json>, steps=[{req, drv, obs}], oracle=<json>, errors=[...]) ; runs the REAL code"""
-    from frappy.params import Parameter, Command
-    node, box, classes = build_node(nodespec)
-    if node.errors or set(node.secnode.modules) != {ms['name'] for ms in nodespec['modules']}:
-        return {'errors': list(node.errors) or ['module missing']}
-    conn = node.connect()
-    node.request(conn, 'activate', None, None)
-    conn.msgs.clear()
-    nj = node_json(node, nodespec, classes)
-    orc = Oracle()
-    out_steps = []
-    for n, st in enumerate(steps):
+class Session:
+    """one generated node under test: the real objects, the oracle tables, the recorded steps.  `before` / `after`
+    bracket ONE request: everything the model may ask the datatypes about the state before the request is computed in
+    `before`, the observation is taken in `after` (sequentially: around node.request; with several connections: inside
+    the handler, i.e. inside the section in which the dispatcher serves the request)"""
+
+    def __init__(self, nodespec):
+        self.nodespec = nodespec
+        self.node, self.box, self.classes = build_node(nodespec)
+        node = self.node
+        self.errors = []
+        if node.errors or set(node.secnode.modules) != {ms['name'] for ms in nodespec['modules']}:
+            self.errors = list(node.errors) or ['module missing']
+            return
+        self.conn = node.connect()            # receives the updates (activated)
+        node.request(self.conn, 'activate', None, None)
+        self.conn.msgs.clear()
+        self.nj = node_json(node, nodespec, self.classes)
+        self.orc = Oracle()
+        self.out_steps = []
+
+    def before(self, n, st):
+        from frappy.params import Parameter
+        node, box, orc = self.node, self.box, self.orc
         box.log = []
         box.returned = []
         box.script = {'kind': st['script'], 'n': n}
         box.rng = random.Random(st['seed'])
-        orc.step = n
+        orc.step = len(self.out_steps)
         before = cache_rows(node)
+        self.conn.msgs.clear()
         kind, spec, data = st['kind'], st['spec'], st['data']
-        if kind == 'assign':
-            out_steps.append(run_assign(node, orc, conn, st, before))
-            continue
         # python objects needed for the oracle are those of BEFORE the request
         modname, accname = split_spec(spec)
         pre = []
@@ -1066,9 +1096,14 @@ def run_case(nodespec, steps):
             mycls, = type(modobj).__bases__
             if isinstance(aobj, Parameter) and kind in ('change', 'read'):
                 param_oracle(orc, box, modobj, mycls, attr, aobj, data, kind, [])
-        reply = node.request(conn, kind, spec, data)
+        return {'before': before, 'pre': pre}
+
+    def after(self, n, st, ctx, reply):
+        from frappy.params import Parameter, Command
+        node, box, orc = self.node, self.box, self.orc
+        kind, spec, data = st['kind'], st['spec'], st['data']
         raws = list(box.returned)
-        for modobj, attr, aobj, cur, lims in pre:
+        for modobj, attr, aobj, cur, lims in ctx['pre']:
             mycls, = type(modobj).__bases__
             if isinstance(aobj, Parameter) and kind in ('change', 'read'):
                 dt = aobj.datatype
@@ -1095,14 +1130,44 @@ def run_case(nodespec, steps):
         else:
             drv = 'none'
         obs = {'reply': reply_obs(reply), 'calls': [list(c) for c in box.log],
-               'emits': [msg_obs(m) for m in conn.msgs], 'before': before, 'after': cache_rows(node)}
-        conn.msgs.clear()
+               'emits': [msg_obs(m) for m in self.conn.msgs], 'before': ctx['before'], 'after': cache_rows(node)}
+        self.conn.msgs.clear()
         wire_data = canonj(data) if kind == 'change' else (None if data is None else canonj(data)) if kind == 'do' else bool(data)
-        out_steps.append({'req': [kind, spec if spec is not None else None, wire_data], 'drv': drv, 'obs': obs,
-                          'pyclass': reply[2][1] if reply and reply[0].startswith('error_') else None})
-    return {'node': nj, 'steps': out_steps, 'oracle': orc.json(), 'errors': [],
-            'dtrees': [[m, a, t] for (m, a), t in orc.trees.items() if t is not None], 'acceptck': orc.ck,
-            'accept_outside_model': orc.count_outside}
+        self.out_steps.append({'req': [kind, spec if spec is not None else None, wire_data], 'drv': drv, 'obs': obs,
+                               'pyclass': reply[2][1] if reply and reply[0].startswith('error_') else None})
+
+    def close(self):
+        """drop the loggers of this node from the logging registry (thousands of nodes per run)"""
+        import logging
+        registry = logging.Logger.manager.loggerDict
+        root = self.node.root.name
+        for k in [k for k in registry if k == root or k.startswith(root + '.')]:
+            del registry[k]
+
+    def record(self):
+        orc = self.orc
+        return {'node': self.nj, 'steps': self.out_steps, 'oracle': orc.json(), 'errors': [],
+                'dtrees': [[m, a, t] for (m, a), t in orc.trees.items() if t is not None], 'acceptck': orc.ck,
+                'accept_outside_model': orc.count_outside, 'accept_kinds': dict(orc.count_kind)}
+
+
+def run_case(nodespec, steps):
+    """-> dict(node=<json>, steps=[{req, drv, obs}], oracle=<json>, errors=[...]) ; runs the REAL code"""
+    sess = Session(nodespec)
+    if sess.errors:
+        return {'errors': sess.errors}
+    for n, st in enumerate(steps):
+        if st['kind'] == 'assign':
+            sess.box.log = []
+            sess.box.returned = []
+            sess.orc.step = n
+            sess.out_steps.append(run_assign(sess.node, sess.orc, sess.conn, st, cache_rows(sess.node)))
+            continue
+        ctx = sess.before(n, st)
+        reply = sess.node.request(sess.conn, st['kind'], st['spec'], st['data'])
+        sess.after(n, st, ctx, reply)
+    sess.close()
+    return sess.record()
 
 
 BAD_RAW = ['a much too long string, longer than any limit', float('nan'), float('inf'), -1e300, 10 ** 40, None, [1, 2, 3, 4, 5, 6, 7, 8, 9],
@@ -1282,9 +1347,8 @@ def gen_conc_case(rng):
     return {'max0': max0, 'values': values, 'moves': moves}
 
 
-def conc_judge(ctx, case, obs):
-    """-> None or (sig, what)"""
-    ans = ctx.driver.batch(conc_requests(case, obs))
+def conc_verdict(obs, ans):
+    """reads the Lean side's answers for one run (lockrun + one judge_call per driver call) -> None or (sig, what)"""
     for a in ans:
         if 'driver_error' in a:
             raise RuntimeError('driver error: %s' % a['driver_error'])
@@ -1300,31 +1364,603 @@ def conc_judge(ctx, case, obs):
     return None
 
 
+def conc_judge(ctx, case, obs):
+    """-> None or (sig, what)"""
+    return conc_verdict(obs, ctx.driver.batch(conc_requests(case, obs)))
+
+
 def run_concurrent(ctx, res, big):
-    from vlib.sched import explore, ReplayThenDefault
+    from vlib.sched import explore
     ncases = ctx.budget(14, 120)
     seen_sigs = set()
     for _ in range(ncases):
         case = gen_conc_case(ctx.rng)
-        nruns = 0
+        runs, reqs = [], []
         for prefix, sched, obs in explore(lambda pol: conc_run(case, pol), max_preemptions=2, max_runs=60 if big else 30):
-            nruns += 1
             if obs['result']['aborted'] not in (None,):
                 raise RuntimeError(f'scheduler aborted ({obs["result"]["aborted"]}) on {case}')
+            r = conc_requests(case, obs)
+            runs.append((list(prefix), obs, len(r)))
+            reqs += r
+        answers = ctx.driver.batch(reqs)      # one driver process per case
+        pos = 0
+        for prefix, obs, n in runs:
+            ans = answers[pos:pos + n]
+            pos += n
             res.evaluations += 1
             res.traces += 1
             res.count('concurrent.schedules')
             res.count('concurrent.driver-calls', len(obs['calls']))
             if any(e[0] == 'move' for e in obs['events']) and obs['calls']:
-                res.nontriv(['conc', case, list(prefix)])
-            bad = conc_judge(ctx, case, obs)
+                res.nontriv(['conc', case, prefix])
+            bad = conc_verdict(obs, ans)
             if bad and bad[0] not in seen_sigs:
                 # a broken discipline is reported once; the search goes on for a schedule with a call outside the limits
                 seen_sigs.add(bad[0])
                 res.violations.append({'sig': bad[0], 'what': bad[1],
-                                       'case': {'concurrent': case, 'schedule': list(prefix)}})
+                                       'case': {'concurrent': case, 'schedule': prefix}})
             if bad and bad[0].endswith('call-outside-current-limits'):
                 break
+
+
+# ----------------------------------------------------------------------------------------
+# concurrent part 2: change requests racing other threads that work on the SAME parameter
+# (requests of other connections, the poller reading the hardware, module code writing)
+# clause: "invoked ... with exactly the validated value (a partial struct merged into the current value)"
+# ----------------------------------------------------------------------------------------
+def gen_merge_dtspec(rng):
+    """datatypes for which the value handed to the driver depends on the cached value (structs with optional members,
+    also inside arrays / tuples), and a share of arbitrary others (nothing to merge: the payload alone decides)"""
+    def struct():
+        names = rng.sample(['a', 'b', 'c', 'dd'], rng.randint(2, 4))
+        optional = [n for n in names if rng.random() < 0.75] or [names[0]]
+        return ['struct', [[n, gen_dtspec(rng, depth=rng.choice([1, 2, 2]))] for n in names], optional]
+    r = rng.random()
+    if r < 0.6:
+        return struct()
+    if r < 0.72:
+        lo = rng.choice([0, 1])
+        return ['array', struct(), lo, lo + rng.choice([1, 2, 3])]
+    if r < 0.82:
+        return ['tuple', [struct(), gen_dtspec(rng, depth=2)]]
+    return gen_dtspec(rng)
+
+
+def gen_merge_case(rng):
+    spec = gen_merge_dtspec(rng)
+
+    def full():
+        return gen_valid(rng, spec)
+
+    def action(kinds, weights):
+        k = rng.choices(kinds, weights)[0]
+        if k == 'change':
+            r = rng.random()
+            if r < 0.75:
+                return ['change', gen_valid(rng, spec, partial=True)]
+            return ['change', gen_payload(rng, spec)[0]]
+        return [k, full()]        # 'read': what the hardware says now; 'write': module code writes a complete value
+    threads = [[action(['change'], [1]) for _ in range(rng.choice([1, 1, 2]))],
+               [action(['change', 'read', 'write'], [5, 3, 2]) for _ in range(rng.choice([1, 1, 2]))]]
+    if rng.random() < 0.25:
+        threads.append([action(['change', 'read', 'write'], [4, 3, 3])])
+    return {'dt': spec, 'init': full(), 'threads': threads, 'ret': rng.choice(['value', 'value', 'none'])}
+
+
+def merge_run(case, policy):
+    """one schedule of: every thread works through its actions on parameter `par` of one module — `change m:_par <payload>`
+    on its own connection, `read_par()` after the hardware value changed (poller), `write_par(v)` (module code).
+    Real SecNode + Dispatcher + wrappers under vlib.sched.  Recorded: the events of the change section, and for every
+    driver call the payload of the request that caused it, the cached value at that moment and the value given."""
+    import frappy.modulebase
+    import frappy.protocol.dispatcher
+    from frappy.modules import Module
+    from frappy.params import Parameter
+    from vlib.node import Node
+    from vlib.sched import Scheduler
+    s = Scheduler(policy=policy, max_steps=6000)
+    events, calls, replies = [], [], []
+    doing = {}          # thread -> the action it is working on
+
+    def tid():
+        me = s.me()
+        return int(me.name[1:]) if me is not None else 0
+
+    dtobj = mk_dtype(case['dt'])
+    init = dtobj.import_value(case['init'])
+    with s.patched(frappy.modulebase, threading=s.threading, time=s.time, mkthread=s.mkthread), \
+            s.patched(frappy.protocol.dispatcher, threading=s.threading, currenttime=s.time):
+        class MM(Module):
+            enablePoll = False
+            par = Parameter('the parameter', dtobj, readonly=False, default=init)
+            hw = init
+
+            def read_par(self):
+                return self.hw
+
+            def write_par(self, value):
+                t = tid()
+                kind, payload = doing.get(t, ('?', None))
+                if kind == 'change':
+                    events.append(['call', t])
+                    calls.append((t, payload, self.par, value))
+                else:
+                    events.append(['direct', t])
+                self.hw = value
+                return value if case['ret'] == 'value' else None
+        node = Node({'m': {'cls': MM, 'description': 'm'}}, omit_unchanged_within=0)
+        mo = node.modules['m']
+        mo.accessLock = RecLock(mo.accessLock, events, tid)
+        dt = mo.parameters['par'].datatype
+        plain_validate = dt.validate
+
+        def validate(value, previous=None):
+            # `validate(value, previous=<cached value>)` is the merge of the payload into the current value
+            if previous is not None:
+                events.append(['merge', tid(), doing.get(tid(), ('?', None))[1]])
+            return plain_validate(value, previous)
+        dt.validate = validate
+        mo.addCallback('par', lambda value, *err: events.append(['store', tid(), value]) if not err else None)
+        handle_change = node.dispatcher.handle_change
+
+        def handler(conn, specifier, data):
+            # the handler the dispatcher looks up for a `change`: from here to its end the request is being handled
+            events.append(['begin', tid()])
+            try:
+                return handle_change(conn, specifier, data)
+            finally:
+                events.append(['finish', tid()])
+        node.dispatcher.handle_change = handler
+        start = mo.par
+        conns = [node.connect() for _ in case['threads']]
+
+        def worker(i, actions):
+            for kind, data in actions:
+                doing[i + 1] = (kind, data)
+                if kind == 'change':
+                    replies.append([i + 1, reply_obs(node.request(conns[i], 'change', 'm:_par', data))])
+                else:
+                    try:
+                        value = dtobj.import_value(data)
+                        if kind == 'read':
+                            mo.hw = value
+                            mo.read_par()
+                        else:
+                            mo.write_par(value)
+                    except Exception:
+                        pass
+            s.yield_(('end',))
+        for i, actions in enumerate(case['threads']):
+            s.spawn('t%d' % (i + 1), worker, (i, actions))
+        result = s.run(wall_timeout=20)
+        final = mo.par
+    import logging
+    registry = logging.Logger.manager.loggerDict
+    for k in [k for k in registry if k == node.root.name or k.startswith(node.root.name + '.')]:
+        del registry[k]
+    return s, {'events': events, 'calls': calls, 'replies': replies, 'result': result, 'start': start, 'final': final,
+               'dtobj': dtobj}
+
+
+def merge_request(case, obs):
+    """the driver request for one run, None when something cannot travel to the Lean side"""
+    from vlib import dtcodec
+    try:
+        tree = dtcodec.dt_to_tree(obs['dtobj'])
+    except Exception:
+        return None
+    vals = [obs['start']] + [e[2] for e in obs['events'] if e[0] in ('merge', 'store')] + \
+           [x for c in obs['calls'] for x in c[1:]]
+    if not all(dtcodec.encodable(v) for v in vals):
+        return None
+    if not all(dtcodec.is_json_value(e[2]) for e in obs['events'] if e[0] == 'merge') or \
+            not all(dtcodec.is_json_value(c[1]) for c in obs['calls']):
+        return None
+    acts = [e[:2] + [dtcodec.py_to_json(e[2])] if e[0] in ('merge', 'store') else list(e) for e in obs['events']]
+    return {'p': PID, 'k': 'changerun', 'dtree': tree, 'init': dtcodec.py_to_json(obs['start']), 'acts': acts,
+            'calls': [[t, dtcodec.py_to_json(p), dtcodec.py_to_json(cur), dtcodec.py_to_json(v)] for t, p, cur, v in obs['calls']]}
+
+
+def merge_verdict(obs, a):
+    """reads the Lean side's answer for one run -> (violation or None, disagreement or None)"""
+    if 'driver_error' in a:
+        raise RuntimeError('driver error: %s' % a['driver_error'])
+    viol = dis = None
+    for (t, payload, cur, v), ok, exp in zip(obs['calls'], a['calls'], a['expected']):
+        if not ok:
+            viol = ('C04:concurrent:call-not-merged-into-current-value',
+                    f'change m:_par {canonj(payload)} (thread {t}): write_par was given {canon(v)} while the cached value was '
+                    f'{canon(cur)}; the payload merged into that value is {json.dumps(exp)} (the driver got members of a value '
+                    f'that was not current any more: a change nobody requested reaches the hardware); replies {obs["replies"]}')
+            break
+    if not a['ok']:
+        dis = {'model': 'the events are not a run of the change-section system (two requests handled at the same time, or '
+                        'merge / driver call / store outside one accessLock section)',
+               'impl': {'events': [e[:2] for e in obs['events']]}}
+    elif not a['same']:
+        dis = {'model': 'the change-section system predicts other driver calls', 'impl': {'calls': [
+            [t, canonj(p), canon(cur), canon(v)] for t, p, cur, v in obs['calls']]}}
+    return viol, dis
+
+
+def merge_judge(ctx, case, obs):
+    """-> (violation or None, disagreement or None); everything is decided by the Lean side"""
+    req = merge_request(case, obs)
+    if req is None:
+        return 'skip', None
+    return merge_verdict(obs, ctx.driver.batch([req])[0])
+
+
+def run_merging(ctx, res, big):
+    from vlib.sched import explore
+    ncases = ctx.budget(40, 200)
+    reported = set()
+    ndis = 0
+    cases = []
+    cdir = os.path.join(ctx.verif, 'corpus', PID)
+    if os.path.isdir(cdir):
+        for fn in sorted(os.listdir(cdir)):
+            entry = json.load(open(os.path.join(cdir, fn)))
+            if 'merging' in entry:
+                cases.append(entry['merging'])
+    cases += [gen_merge_case(ctx.rng) for _ in range(ncases)]
+    for case in cases:
+        kinds = sorted({a[0] for th in case['threads'][1:] for a in th})
+        runs, reqs = [], []
+        for prefix, sched, obs in explore(lambda pol: merge_run(case, pol), max_preemptions=2, max_runs=50 if big else 24):
+            if obs['result']['aborted'] not in (None,):
+                raise RuntimeError(f'scheduler aborted ({obs["result"]["aborted"]}) on {case}')
+            req = merge_request(case, obs)
+            if req is None:
+                res.count('merging.not-encodable')
+                break
+            runs.append((list(prefix), obs))
+            reqs.append(req)
+        for (prefix, obs), a in zip(runs, ctx.driver.batch(reqs)):
+            viol, dis = merge_verdict(obs, a)
+            res.evaluations += 1
+            res.traces += 1
+            res.count('merging.schedules')
+            res.count('merging.dt.' + case['dt'][0])
+            res.count('merging.driver-calls', len(obs['calls']))
+            for k in kinds:
+                res.count('merging.other-thread.' + k)
+            for _, r in obs['replies']:
+                res.count('merging.reply.' + (r[0] if r[0] != 'error' else r[1]))
+            if len(obs['calls']) >= 1 and len({e[1] for e in obs['events'] if e[0] in ('store', 'call', 'direct')}) >= 2 \
+                    and obs['final'] != obs['start']:
+                res.nontriv(['merge', case, prefix])
+            if dis is not None and ctx.model_ok:
+                ndis += 1
+                if ndis <= 3:
+                    res.disagreements.append(dict(dis, case={'merging': case, 'schedule': prefix}))
+            if viol:
+                # the signature names the kinds of the other threads of the case (a description of the input, not a verdict)
+                sig = viol[0] + ':other-threads=' + '+'.join(kinds)
+                if sig not in reported:
+                    reported.add(sig)
+                    res.violations.append({'sig': sig, 'what': viol[1], 'case': {'merging': case, 'schedule': prefix}})
+            if viol:
+                break
+
+
+# ----------------------------------------------------------------------------------------
+# concurrent part 3: a generated history served to SEVERAL connections at once
+# The sequential model (one request = one atomic step, theorem `histories`) speaks about a node with several clients only
+# if the dispatcher handles the requests one at a time.  Here the requests of a generated history are dealt out to 2-3
+# threads (one connection each) and run under the deterministic scheduler; oracle tables and observations are taken
+# inside the handler (the section in which the dispatcher serves the request).  The Lean side checks that the handler
+# sections do not overlap (`OneAtATime`), runs the sequential model on the requests in the order they were served, and
+# judges every exchange as in the sequential part.
+# ----------------------------------------------------------------------------------------
+def shared_run(case, nthreads, policy):
+    import frappy.modulebase
+    import frappy.protocol.dispatcher
+    from vlib.node import error_class
+    from vlib.sched import Scheduler
+    s = Scheduler(policy=policy, max_steps=60000)
+    steps = [st for st in case['steps'] if st['kind'] != 'assign']
+    events = []
+    current = {}
+
+    def tid():
+        me = s.me()
+        return int(me.name[1:]) if me is not None else 0
+
+    with s.patched(frappy.modulebase, threading=s.threading, time=s.time, mkthread=s.mkthread), \
+            s.patched(frappy.protocol.dispatcher, threading=s.threading, currenttime=s.time):
+        sess = Session(case['nodespec'])
+        if sess.errors:
+            return s, {'errors': sess.errors}
+        disp = sess.node.dispatcher
+        for action in ('change', 'do', 'read'):
+            def handler(conn, specifier, data, action=action, orig=getattr(disp, 'handle_' + action)):
+                t = tid()
+                n, st = current[t]
+                events.append(['begin', t])
+                ctx = sess.before(n, st)
+                try:
+                    reply = orig(conn, specifier, data)
+                except Exception as e:
+                    sess.after(n, st, ctx, ('error_' + action, specifier, [error_class(e), type(e).__name__, {}]))
+                    events.append(['finish', t])
+                    raise
+                sess.after(n, st, ctx, reply)
+                events.append(['finish', t])
+                return reply
+            setattr(disp, 'handle_' + action, handler)
+        conns = [sess.node.connect() for _ in range(nthreads)]
+
+        def worker(i):
+            for n, st in enumerate(steps):
+                if n % nthreads != i:
+                    continue
+                current[i + 1] = (n, st)
+                sess.node.request(conns[i], st['kind'], st['spec'], st['data'])
+            s.yield_(('end',))
+        for i in range(nthreads):
+            s.spawn('t%d' % (i + 1), worker, (i,))
+        result = s.run(wall_timeout=60)
+        rec = sess.record()
+    import logging
+    registry = logging.Logger.manager.loggerDict
+    for k in [k for k in registry if k == sess.node.root.name or k.startswith(sess.node.root.name + '.')]:
+        del registry[k]
+    rec['events'] = events
+    rec['result'] = result
+    rec['nsteps'] = len(steps)
+    return s, rec
+
+
+def shared_requests(ctx, rec):
+    return [{'p': PID, 'k': 'serial', 'acts': rec['events']}] + model_and_judge(ctx, rec)
+
+
+def run_shared(ctx, res, big):
+    from vlib.sched import RandomPolicy
+    ncases = ctx.budget(60, 300)
+    reported = set()
+    ndis = [0]
+
+    def evaluate(ref, rec, serial, model, judge):
+        for a in (serial, model, judge):
+            if 'driver_error' in a:
+                raise RuntimeError(f'driver error: {a["driver_error"]} (shared case {ref})')
+        res.evaluations += len(rec['steps'])
+        res.traces += len(rec['steps'])
+        res.count('shared.histories')
+        res.count('shared.requests', len(rec['steps']))
+        res.count('shared.threads.%d' % ref['shared']['threads'])
+        res.count('shared.switches', sum(1 for i in range(1, len(rec['events'])) if rec['events'][i][1] != rec['events'][i - 1][1]))
+        if not serial['ok']:
+            # the sequential model does not describe this run; nothing is judged on it
+            ndis[0] += 1
+            if ctx.model_ok and ndis[0] <= 3:
+                res.disagreements.append({'case': ref, 'model': 'requests are handled one at a time',
+                                          'impl': {'handler sections': rec['events'][:40]}})
+            return
+        if any(st['obs']['calls'] for st in rec['steps']) and len({e[1] for e in rec['events']}) > 1:
+            res.nontriv(['shared', ref['shared'], ref['pseed']])
+        if ctx.model_ok:
+            d = compare(model, rec)
+            if d is not None:
+                ndis[0] += 1
+                if ndis[0] <= 3:
+                    res.disagreements.append({'case': dict(ref, step=d['step']), 'model': {d['field']: d['model']},
+                                              'impl': {d['field']: d['impl'], 'req': d['req'], 'pyclass': d['pyclass']}})
+        if judge['bad'] is not None:
+            idx, why = judge['bad']
+            sig = sig_of(rec, idx, why) + ':several-connections'
+            if sig not in reported:
+                reported.add(sig)
+                st = rec['steps'][idx]
+                res.violations.append({
+                    'sig': sig,
+                    'what': f'(several connections) request {st["req"]} answered {st["obs"]["reply"]} with driver calls '
+                            f'{st["obs"]["calls"]}; the specification says: {why}',
+                    'case': ref, 'detail': {'step': idx, 'obs': {k: st['obs'][k] for k in ('reply', 'calls', 'emits')}}})
+
+    CHUNK = 50
+    for start in range(0, ncases, CHUNK):
+        runs, reqs = [], []
+        for _ in range(start, min(ncases, start + CHUNK)):
+            seed = ctx.rng.randrange(1 << 40)
+            case = gen_case(seed, big)
+            nthreads = ctx.rng.choice([2, 2, 3])
+            pseed = ctx.rng.randrange(1 << 30)
+            s, rec = shared_run(case, nthreads, RandomPolicy(random.Random(pseed), preempt_prob=0.5))
+            if rec['errors']:
+                res.count('shared.node-rejected-by-frappy')
+                continue
+            if rec['result']['aborted'] not in (None,):
+                raise RuntimeError(f'scheduler aborted ({rec["result"]["aborted"]}) on shared case {seed}')
+            if len(rec['steps']) != rec['nsteps']:
+                raise RuntimeError(f'shared case {seed}: {len(rec["steps"])} of {rec["nsteps"]} requests reached a handler')
+            ref = {'shared': {'seed': seed, 'big': big, 'threads': nthreads}, 'schedule': [c for _, c, _ in s.choices],
+                   'pseed': pseed}
+            runs.append((ref, rec))
+            reqs += shared_requests(ctx, rec)
+        answers = ctx.driver.batch(reqs)
+        for j, (ref, rec) in enumerate(runs):
+            evaluate(ref, rec, answers[3 * j], answers[3 * j + 1], answers[3 * j + 2])
+
+
+# ----------------------------------------------------------------------------------------
+# the same histories THROUGH THE REAL REQUEST LOOP (frappy/protocol/interface/handler.py + tcp.py): request lines in,
+# reply lines out.  "the client receives an error report of the fitting class": the class the client sees is made by
+# RequestHandler.handle from the exception (error_<action> <specifier> [<SECoP class name>, text, {}]); in the other
+# streams vlib.node.Node.request stands in for that code.
+# ----------------------------------------------------------------------------------------
+class WireSock:
+    """scripted socket: everything the client sends, in chunks; what the node sends back is collected"""
+
+    def __init__(self, chunks):
+        self.chunks = list(chunks)
+        self.out = []
+
+    def settimeout(self, t):
+        pass
+
+    def recv(self, n):
+        return self.chunks.pop(0) if self.chunks else b''
+
+    def sendall(self, b):
+        self.out.append(bytes(b))
+
+    def shutdown(self, how):
+        pass
+
+    def close(self):
+        pass
+
+
+class WireLog:
+    def __init__(self):
+        self.errors = []
+
+    def error(self, *a):
+        self.errors.append(a)
+
+    exception = error
+
+    def info(self, *a):
+        pass
+
+    debug = warning = info
+
+
+class WireServer:
+    def __init__(self, dispatcher):
+        self.dispatcher = dispatcher
+        self.log = WireLog()
+        self.detailed_errors = False
+
+
+def wire_expressible(st):
+    """can the request be written as one SECoP line that reaches the same handler with the same arguments?"""
+    spec = st['spec']
+    if st['kind'] == 'assign' or not spec or spec != spec.strip() or ' ' in spec or '\n' in spec:
+        return False
+    try:
+        return json.loads(json.dumps(st['data'])) == st['data'] and 'UNSERIALISABLE' not in canonj(st['data'])
+    except Exception:
+        return False
+
+
+def wire_run(case, chunking):
+    """the history of `case` (requests expressible as a line) sent as ONE byte stream to a real TCPRequestHandler"""
+    import contextlib
+    import io
+    import frappy.protocol.interface.handler as fh
+    from frappy.protocol.interface.tcp import TCPRequestHandler
+    from frappy.protocol.interface import encode_msg_frame, decode_msg
+    from vlib.node import error_class
+    steps = [st for st in case['steps'] if wire_expressible(st)]
+    sess = Session(case['nodespec'])
+    if sess.errors:
+        return {'errors': sess.errors}
+    disp = sess.node.dispatcher
+    served = []
+    for action in ('change', 'do', 'read'):
+        def handler(conn, specifier, data, action=action, orig=getattr(disp, 'handle_' + action)):
+            n = len(served)
+            st = steps[n]
+            served.append(n)
+            ctx = sess.before(n, st)
+            try:
+                reply = orig(conn, specifier, data)
+            except Exception as e:
+                sess.after(n, st, ctx, ('error_' + action, specifier, [error_class(e), type(e).__name__, {}]))
+                raise
+            sess.after(n, st, ctx, reply)
+            return reply
+        setattr(disp, 'handle_' + action, handler)
+    stream = b''.join(encode_msg_frame(st['kind'], st['spec'], st['data']) for st in steps)
+    rng = random.Random(chunking)
+    chunks = []
+    while stream:
+        k = rng.choice([1, 7, 64, 4096, len(stream)])
+        chunks.append(stream[:k])
+        stream = stream[k:]
+    sock = WireSock(chunks)
+    srv = WireServer(disp)
+    saved = fh.formatExtendedStack, fh.formatExtendedTraceback
+    fh.formatExtendedStack = fh.formatExtendedTraceback = lambda *a, **k: ''     # the dumps are not observed
+    try:
+        with contextlib.redirect_stdout(io.StringIO()):
+            TCPRequestHandler(sock, ('127.0.0.1', 4711), srv)
+    finally:
+        fh.formatExtendedStack, fh.formatExtendedTraceback = saved
+    sess.close()
+    lines = [l for l in b''.join(sock.out).split(b'\n') if l]
+    rec = sess.record()
+    rec['nsteps'] = len(steps)
+    rec['nlines'] = len(lines)
+    rec['died'] = [str(e)[:300] for e in srv.log.errors][:2]
+    if len(lines) == len(steps) == len(rec['steps']):
+        for st, line in zip(rec['steps'], lines):
+            # what the CLIENT gets: the reply line made by the request loop
+            st['obs']['reply'] = reply_obs(decode_msg(line))
+    return rec
+
+
+def run_wire(ctx, res, big):
+    ncases = ctx.budget(60, 400)
+    reported = set()
+    ndis = [0]
+
+    def evaluate(ref, rec, model, judge):
+        for a in (model, judge):
+            if 'driver_error' in a:
+                raise RuntimeError(f'driver error: {a["driver_error"]} (wire case {ref})')
+        res.evaluations += len(rec['steps'])
+        res.traces += len(rec['steps'])
+        res.count('wire.histories')
+        res.count('wire.requests', len(rec['steps']))
+        for st in rec['steps']:
+            res.count('wire.' + classify(st))
+        if any(st['obs']['calls'] for st in rec['steps']) and any(st['obs']['reply'][0] == 'error' for st in rec['steps']):
+            res.nontriv(['wire', ref['wire']])
+        if ctx.model_ok:
+            d = compare(model, rec)
+            if d is not None:
+                ndis[0] += 1
+                if ndis[0] <= 3:
+                    res.disagreements.append({'case': dict(ref, step=d['step']), 'model': {d['field']: d['model']},
+                                              'impl': {d['field']: d['impl'], 'req': d['req']}})
+        if judge['bad'] is not None:
+            idx, why = judge['bad']
+            sig = sig_of(rec, idx, why) + ':request-loop'
+            if sig not in reported:
+                reported.add(sig)
+                st = rec['steps'][idx]
+                res.violations.append({
+                    'sig': sig,
+                    'what': f'(through the request loop) request line {st["req"]} answered {st["obs"]["reply"]} with driver '
+                            f'calls {st["obs"]["calls"]}; the specification says: {why}',
+                    'case': ref, 'detail': {'step': idx, 'obs': {k: st['obs'][k] for k in ('reply', 'calls', 'emits')}}})
+
+    CHUNK = 50
+    for start in range(0, ncases, CHUNK):
+        runs, reqs = [], []
+        for _ in range(start, min(ncases, start + CHUNK)):
+            seed = ctx.rng.randrange(1 << 40)
+            chunking = ctx.rng.randrange(1 << 30)
+            rec = wire_run(gen_case(seed, big), chunking)
+            if rec['errors']:
+                res.count('wire.node-rejected-by-frappy')
+                continue
+            ref = {'wire': {'seed': seed, 'big': big, 'chunking': chunking}}
+            if not (rec['nlines'] == rec['nsteps'] == len(rec['steps'])):
+                # not one reply line per request line: C07's subject; here the history cannot be aligned
+                res.disagreements.append({'case': ref, 'model': f'{rec["nsteps"]} requests, one reply line each',
+                                          'impl': {'handled': len(rec['steps']), 'lines': rec['nlines'], 'log': rec['died']}})
+                continue
+            runs.append((ref, rec))
+            reqs += model_and_judge(ctx, rec)
+        answers = ctx.driver.batch(reqs)
+        for j, (ref, rec) in enumerate(runs):
+            evaluate(ref, rec, answers[2 * j], answers[2 * j + 1])
 
 
 # ----------------------------------------------------------------------------------------
@@ -1384,99 +2020,117 @@ def run(ctx):
                 'flags, Limit parameters, check_ hook chains, commands with/without argument/result, cfg overrides) x '
                 'request histories of 10-40 (thorough 10-80) change/do/read requests with scripted drivers; one evaluation '
                 '= one request; non-trivial = a history in which at least one change reached the driver, one was refused '
-                'for a reason other than the name, and a dynamic limit or hook decided at least one request')
+                'for a reason other than the name, and a dynamic limit or hook decided at least one request; plus '
+                'schedules (one evaluation = one schedule) of a change racing a limit move (non-trivial: the limit moved and '
+                'the driver was called), of 2-3 threads changing / polling / writing one struct parameter (non-trivial: a '
+                'request reached the driver, two threads stored or wrote, the value changed), and generated histories served '
+                'to 2-3 connections at once (one evaluation = one request; non-trivial: a driver call and two threads served) '
+                'or sent as request lines through the real request loop (non-trivial: a driver call and an error report)')
     big = ctx.tier == 'thorough' or ctx.escalated
     rng = ctx.rng
     cases = []
     cdir = os.path.join(ctx.verif, 'corpus', PID)
     if os.path.isdir(cdir):
         for fn in sorted(os.listdir(cdir)):
-            cases.append(json.load(open(os.path.join(cdir, fn)))['case'])
-    for _ in range(ctx.budget(600, 9000)):
-        cases.append(gen_case(rng.randrange(1 << 40), big))
-    recs, reqs = [], []
-    skipped = 0
-    for case in cases:
-        try:
-            rec = run_case(case['nodespec'], case['steps'])
-        except Exception as e:   # a generator that builds an impossible class is a harness problem, not a verdict
-            raise RuntimeError(f'case {case["seed"]} could not be run: {e!r}') from e
-        if rec['errors']:
-            skipped += 1
-            res.count('node.rejected-by-frappy')
-            if len(res.notes) < 3:
-                res.notes.append('generated node rejected by frappy: %s' % rec['errors'][:2])
-            continue
-        recs.append((case, rec))
-        reqs += model_and_judge(ctx, rec)
-    answers = []
-    CH = 60
-    for i in range(0, len(reqs), CH):
-        answers += ctx.driver.batch(reqs[i:i + CH])
-    shrunk = 0
-    for j, (case, rec) in enumerate(recs):
-        model, judge = answers[2 * j], answers[2 * j + 1]
-        if 'driver_error' in model or 'driver_error' in judge:
-            raise RuntimeError(f'driver error: {model.get("driver_error")} {judge.get("driver_error")} (case {case["seed"]})')
-        res.evaluations += len(rec['steps'])
-        res.traces += len(rec['steps'])
-        kinds = set()
-        for st in rec['steps']:
-            c = classify(st)
-            res.count(c)
-            kinds.add(c)
-            if st['obs']['calls']:
-                res.count('driver.called.' + st['req'][0])
-            if st['req'][0] == 'change' and (st['req'][1] or '').endswith('_limits'):
-                res.count('limits-pair.' + (st['obs']['reply'][0] if st['obs']['reply'][0] != 'error' else st['obs']['reply'][1]))
-        limit_used = bool(rec['oracle']['le']) or bool(rec['oracle']['chk'])
-        res.count('oracle.limit-comparisons', len(rec['oracle']['le']))
-        res.count('oracle.limit-comparisons.false', sum(1 for r in rec['oracle']['le'] if r[-1] is False))
-        res.count('oracle.hook-results.pass', sum(1 for r in rec['oracle']['chk'] if r[-1] == 'pass'))
-        res.count('oracle.hook-results.stop', sum(1 for r in rec['oracle']['chk'] if r[-1] == 'stop'))
-        res.count('oracle.hook-results.raise', sum(1 for r in rec['oracle']['chk'] if isinstance(r[-1], list)))
-        res.count('accept-rows.recomputed-by-datatype-model', len(rec.get('acceptck', [])))
-        res.count('accept-rows.outside-model(LimitsType...)', rec.get('accept_outside_model', 0))
-        res.count('oracle.accept.ok', sum(1 for r in rec['oracle']['accept'] if r[-1][0] == 'ok'))
-        res.count('oracle.accept.err', sum(1 for r in rec['oracle']['accept'] if r[-1][0] != 'ok'))
-        if any(st['req'][0] == 'change' and any(c[0] == 'write' for c in st['obs']['calls']) for st in rec['steps']) \
-                and kinds & {'change.ReadOnly', 'change.RangeError', 'change.WrongType'} and limit_used:
-            res.nontriv(case['seed'])
-        if len(res.samples) < 4:
-            for st in rec['steps']:
-                if st['obs']['calls'] and st['req'][0] == 'change' and len(res.samples) < 4:
-                    res.samples.append({'req': st['req'], 'reply': st['obs']['reply'], 'calls': st['obs']['calls'],
-                                        'emits': st['obs']['emits']})
-                    break
-        if ctx.model_ok:
-            d = compare(model, rec)
-            if d is not None:
-                res.disagreements.append({'case': {'seed': case['seed'], 'big': case['big'], 'step': d['step']},
-                                          'model': {d['field']: d['model']}, 'impl': {d['field']: d['impl'], 'req': d['req'],
-                                                                                       'pyclass': d['pyclass']}})
-        if judge['bad'] is not None:
-            idx, why = judge['bad']
-            sig = sig_of(rec, idx, why)
-            keep = list(range(idx + 1))
-            if shrunk < 3:
-                shrunk += 1
+            entry = json.load(open(os.path.join(cdir, fn)))
+            if 'case' in entry:
+                cases.append(entry['case'])
+    seeds = [rng.randrange(1 << 40) for _ in range(ctx.budget(600, 5000))]
+    state = {'skipped': 0, 'shrunk': 0, 'ncases': 0}
 
-                def fails(sub, case=case, sig=sig):
-                    r = run_case(case['nodespec'], [case['steps'][i] for i in sub])
-                    if r['errors']:
-                        return False
-                    a = ctx.driver.batch([model_and_judge(ctx, r)[1]])[0]
-                    return a.get('bad') is not None and sig_of(r, a['bad'][0], a['bad'][1]) == sig
-                keep = ddmin(keep, fails, max_tests=120)
-            st = rec['steps'][idx]
-            res.violations.append({
-                'sig': sig,
-                'what': f'request {st["req"]} answered {st["obs"]["reply"]} with driver calls {st["obs"]["calls"]}; '
-                        f'the specification says: {why}',
-                'case': {'seed': case['seed'], 'big': case['big'], 'keep': keep},
-                'detail': {'step': idx, 'obs': {k: st['obs'][k] for k in ('reply', 'calls', 'emits')}}})
+    def process(cases):
+        """run, model and judge one chunk of cases (memory stays bounded in the thorough tier)"""
+        recs, reqs = [], []
+        for case in cases:
+            try:
+                rec = run_case(case['nodespec'], case['steps'])
+            except Exception as e:   # a generator that builds an impossible class is a harness problem, not a verdict
+                raise RuntimeError(f'case {case["seed"]} could not be run: {e!r}') from e
+            if rec['errors']:
+                state['skipped'] += 1
+                res.count('node.rejected-by-frappy')
+                if len(res.notes) < 3:
+                    res.notes.append('generated node rejected by frappy: %s' % rec['errors'][:2])
+                continue
+            recs.append((case, rec))
+            reqs += model_and_judge(ctx, rec)
+        answers = []
+        CH = 60
+        for i in range(0, len(reqs), CH):
+            answers += ctx.driver.batch(reqs[i:i + CH])
+        for j, (case, rec) in enumerate(recs):
+            model, judge = answers[2 * j], answers[2 * j + 1]
+            if 'driver_error' in model or 'driver_error' in judge:
+                raise RuntimeError(f'driver error: {model.get("driver_error")} {judge.get("driver_error")} (case {case["seed"]})')
+            res.evaluations += len(rec['steps'])
+            res.traces += len(rec['steps'])
+            kinds = set()
+            for st in rec['steps']:
+                c = classify(st)
+                res.count(c)
+                kinds.add(c)
+                if st['obs']['calls']:
+                    res.count('driver.called.' + st['req'][0])
+                if st['req'][0] == 'change' and (st['req'][1] or '').endswith('_limits'):
+                    res.count('limits-pair.' + (st['obs']['reply'][0] if st['obs']['reply'][0] != 'error' else st['obs']['reply'][1]))
+            limit_used = bool(rec['oracle']['le']) or bool(rec['oracle']['chk'])
+            res.count('oracle.limit-comparisons', len(rec['oracle']['le']))
+            res.count('oracle.limit-comparisons.false', sum(1 for r in rec['oracle']['le'] if r[-1] is False))
+            res.count('oracle.hook-results.pass', sum(1 for r in rec['oracle']['chk'] if r[-1] == 'pass'))
+            res.count('oracle.hook-results.stop', sum(1 for r in rec['oracle']['chk'] if r[-1] == 'stop'))
+            res.count('oracle.hook-results.raise', sum(1 for r in rec['oracle']['chk'] if isinstance(r[-1], list)))
+            res.count('accept-rows.recomputed-by-datatype-model', len(rec.get('acceptck', [])))
+            res.count('accept-rows.outside-model(LimitsType...)', rec.get('accept_outside_model', 0))
+            res.count('accept-rows.command-arguments', rec.get('accept_kinds', {}).get('cmd', 0))
+            res.count('oracle.accept.ok', sum(1 for r in rec['oracle']['accept'] if r[-1][0] == 'ok'))
+            res.count('oracle.accept.err', sum(1 for r in rec['oracle']['accept'] if r[-1][0] != 'ok'))
+            if any(st['req'][0] == 'change' and any(c[0] == 'write' for c in st['obs']['calls']) for st in rec['steps']) \
+                    and kinds & {'change.ReadOnly', 'change.RangeError', 'change.WrongType'} and limit_used:
+                res.nontriv(case['seed'])
+            if len(res.samples) < 4:
+                for st in rec['steps']:
+                    if st['obs']['calls'] and st['req'][0] == 'change' and len(res.samples) < 4:
+                        res.samples.append({'req': st['req'], 'reply': st['obs']['reply'], 'calls': st['obs']['calls'],
+                                            'emits': st['obs']['emits']})
+                        break
+            if ctx.model_ok:
+                d = compare(model, rec)
+                if d is not None:
+                    res.disagreements.append({'case': {'seed': case['seed'], 'big': case['big'], 'step': d['step']},
+                                              'model': {d['field']: d['model']}, 'impl': {d['field']: d['impl'], 'req': d['req'],
+                                                                                           'pyclass': d['pyclass']}})
+            if judge['bad'] is not None:
+                idx, why = judge['bad']
+                sig = sig_of(rec, idx, why)
+                keep = list(range(idx + 1))
+                if state['shrunk'] < 3:
+                    state['shrunk'] += 1
+
+                    def fails(sub, case=case, sig=sig):
+                        r = run_case(case['nodespec'], [case['steps'][i] for i in sub])
+                        if r['errors']:
+                            return False
+                        a = ctx.driver.batch([model_and_judge(ctx, r)[1]])[0]
+                        return a.get('bad') is not None and sig_of(r, a['bad'][0], a['bad'][1]) == sig
+                    keep = ddmin(keep, fails, max_tests=120)
+                st = rec['steps'][idx]
+                res.violations.append({
+                    'sig': sig,
+                    'what': f'request {st["req"]} answered {st["obs"]["reply"]} with driver calls {st["obs"]["calls"]}; '
+                            f'the specification says: {why}',
+                    'case': {'seed': case['seed'], 'big': case['big'], 'keep': keep},
+                    'detail': {'step': idx, 'obs': {k: st['obs'][k] for k in ('reply', 'calls', 'emits')}}})
+        state['ncases'] += len(recs)
+    CHUNK = 300
+    process(cases + [gen_case(sd, big) for sd in seeds[:CHUNK]])
+    for i in range(CHUNK, len(seeds), CHUNK):
+        process([gen_case(sd, big) for sd in seeds[i:i + CHUNK]])
     run_concurrent(ctx, res, big)
-    res.count('cases', len(recs))
+    run_merging(ctx, res, big)
+    run_shared(ctx, res, big)
+    run_wire(ctx, res, big)
+    res.count('cases', state['ncases'])
+    skipped = state['skipped']
     if skipped:
         res.notes.append(f'{skipped} generated nodes were rejected by frappy itself at creation and skipped')
     return res
@@ -1484,6 +2138,59 @@ def run(ctx):
 
 def replay(ctx, rp):
     c = rp['case']
+    if 'wire' in c:
+        wc = c['wire']
+        rec = wire_run(gen_case(wc['seed'], wc['big']), wc['chunking'])
+        if rec['errors']:
+            print('node rejected:', rec['errors'])
+            return 2
+        print('request lines:', rec['nsteps'], ' handled:', len(rec['steps']), ' reply lines:', rec['nlines'], rec['died'])
+        if not (rec['nlines'] == rec['nsteps'] == len(rec['steps'])):
+            return 1
+        model, judge = ctx.driver.batch(model_and_judge(ctx, rec))
+        for i, st in enumerate(rec['steps']):
+            mo = model['outs'][i] if 'outs' in model else None
+            print(f'[{i}] line  :', st['req'], ' driver script:', st['drv'])
+            print('     impl  :', st['obs']['reply'], 'calls', st['obs']['calls'], 'emits', st['obs']['emits'])
+            if mo:
+                print('     model :', mo['reply'], 'calls', mo['calls'], 'emits', mo['emits'])
+        print('judge :', judge)
+        d = compare(model, rec) if 'outs' in model else None
+        print('correspondence:', 'agree' if d is None else d)
+        return 0 if judge.get('bad') is None and d is None else 1
+    if 'shared' in c:
+        from vlib.sched import ReplayThenDefault
+        sc = c['shared']
+        s, rec = shared_run(gen_case(sc['seed'], sc['big']), sc['threads'], ReplayThenDefault(c['schedule']))
+        if rec['errors']:
+            print('node rejected:', rec['errors'])
+            return 2
+        serial, model, judge = ctx.driver.batch(shared_requests(ctx, rec))
+        print('handler sections:', rec['events'])
+        print('one request at a time:', serial)
+        for i, st in enumerate(rec['steps']):
+            mo = model['outs'][i] if 'outs' in model else None
+            print(f'[{i}] req   :', st['req'], ' driver script:', st['drv'])
+            print('     impl  :', st['obs']['reply'], 'calls', st['obs']['calls'], 'emits', st['obs']['emits'])
+            if mo:
+                print('     model :', mo['reply'], 'calls', mo['calls'], 'emits', mo['emits'])
+        print('judge :', judge)
+        d = compare(model, rec) if 'outs' in model else None
+        print('correspondence:', 'agree' if d is None else d)
+        return 0 if serial.get('ok') and judge.get('bad') is None and d is None else 1
+    if 'merging' in c:
+        from vlib.sched import ReplayThenDefault
+        s, obs = merge_run(c['merging'], ReplayThenDefault(c['schedule']))
+        print('case    :', c['merging'])
+        print('events  :', [e[:2] + [canon(e[2]) if e[0] == 'store' else canonj(e[2])] if len(e) > 2 else e for e in obs['events']])
+        print('calls (thread, payload, cached value at that moment, value given to the driver):')
+        for t, p, cur, v in obs['calls']:
+            print('         ', t, canonj(p), canon(cur), canon(v))
+        print('replies :', obs['replies'])
+        viol, dis = merge_judge(ctx, c['merging'], obs)
+        print('judge   :', viol)
+        print('correspondence:', 'agree' if dis is None else dis)
+        return 1 if viol or dis else 0
     if 'concurrent' in c:
         from vlib.sched import ReplayThenDefault
         s, obs = conc_run(c['concurrent'], ReplayThenDefault(c['schedule']))
